@@ -16,7 +16,10 @@ from vf.world import Hang
 PID = "C20"
 SIGMA = ["a", " ", "%", "s", "(", ")", "é", '"', "\\"]
 EXTRA = ["%s", "%(message)s", "%d%n", " lead", "trail ", "  ", "密码", "A" * 200, "{0}", "%%", "pa ss", "\\n"]
-SHAPES = ["accept", "reject", "before-user", "after-login", "anonymous-then-pass", "retry", "unknown-user"]
+SHAPES = ["accept", "reject", "before-user", "after-login", "anonymous-then-pass", "retry", "unknown-user",
+          # what happens *after* an accepted login, alone and next to another session of the same account
+          "accept-then-work", "accept-relogin", "two-sessions-quit-relogin", "two-sessions-drop-relogin"]
+ACCEPTING = ("accept", "retry", "accept-then-work", "accept-relogin", "two-sessions-quit-relogin", "two-sessions-drop-relogin")
 SPELL = ["PASS", "pass", "PaSs"]
 
 
@@ -52,11 +55,12 @@ def users(a, base, table_pw):
 
 def scenario(shape, spelling, p, via_client):
     """returns (log text, outcome codes)"""
-    table_pw = p if shape in ("accept", "retry") and isinstance(p, str) else "Other-Password-1"
+    table_pw = p if shape in ACCEPTING and isinstance(p, str) else "Other-Password-1"
     # the line protocol strips trailing blanks, so such a password can never be accepted: keep the shape but
     # the outcome is part of the comparison
     with logcap.capture() as cap:
-        rig = Rig(tree={}, users=lambda a, base: users(a, base, table_pw))
+        rig = Rig(tree={"f": b"x"}, users=lambda a, base: users(a, base, table_pw), n_sessions=2,
+                  server_kwargs={"wait_future_timeout": 1})
         try:
             w = rig.world
             a = w.aioftp
@@ -86,8 +90,23 @@ def scenario(shape, spelling, p, via_client):
                     "anonymous-then-pass": ["USER anonymous", line],
                     "retry": ["USER bob", "PASS wrong-one", "USER bob", line],
                     "unknown-user": ["USER nobody", line, "USER bob", line],
+                    "accept-then-work": ["USER bob", line, "PWD", "MKD d", "RETR nope", "FOO", "EPSV", "@data", "LIST",
+                                         "STOR", "RNTO x", "EPSV x", "REST z"],
+                    "accept-relogin": ["USER bob", line, "PWD", "USER bob", line, "PWD", "USER anonymous", "USER bob", line],
+                    "two-sessions-quit-relogin": ["USER bob", line, (1, "@connect"), (1, "USER bob"), (1, line),
+                                                  "QUIT", (1, "USER bob"), (1, line), (1, "PWD")],
+                    "two-sessions-drop-relogin": ["USER bob", line, (1, "@connect"), (1, "USER bob"), (1, line),
+                                                  "USER bob", (1, "@drop"), line, "PWD", "USER bob", line],
                 }[shape]
                 for h in hist:
+                    if isinstance(h, tuple):
+                        who, h = h
+                        if rig.sessions[who].ctl is None and h != "@connect":
+                            codes.append(["<closed>"])
+                            continue
+                        r = rig.ev(who, h)
+                        codes.append([c for c, _ in (r or [])])
+                        continue
                     if isinstance(h, bytes):
                         sess = rig.sessions[0]
                         if sess.closed():
@@ -309,7 +328,7 @@ def work(item):
             sig["kind"] = "log-depends-on-password"
             part.violation(sig, {"password_repr": repr(p), "log_line": diff[0][:200], "reference_line": diff[1][:200]},
                            replay={"shape": shape, "spelling": spelling, "via_client": via_client, "password": p})
-        elif codes != rcodes and shape != "accept" and shape != "retry":
+        elif codes != rcodes and shape not in ACCEPTING:
             sig["kind"] = "outcome-depends-on-password"
             part.violation(sig, {"password_repr": repr(p), "codes": codes, "reference_codes": rcodes},
                            replay={"shape": shape, "spelling": spelling, "via_client": via_client, "password": p})
